@@ -62,6 +62,8 @@ SKIP = {
     'get_completed_task_executions_as_batches': 'generator; engine-internal, not user reachable',
     'update_workflow_execution_state': 'engine-internal CAS (cur_state/state arguments)',
     'update_task_execution_state': 'engine-internal CAS',
+    'update_action_execution_state': 'engine-internal CAS (repo fix fdb9cc00; only engine/actions.py calls it, '
+                                     'same (id, cur_state, state) form as the two above)',
     'delete_workflow_execution_recurse': 'mysql cascade fallback helper of delete_workflow_execution',
     'update_action_execution_heartbeat': 'executor heartbeat (id only, no values)',
 }
